@@ -452,9 +452,17 @@ def do_replay(prop, P, path, seed):
         if 'replay' in P:
             return P['replay'](b, path, hdr, seed)
         binary = resolve_binary(b, target, int(hdr.get('seed', seed)))
+        others = []
+        parts = target.split(':')
+        if parts[0] in ('codec', 'fuzz'):
+            others = b.build_codec(parts[1], int(hdr.get('seed', seed)) if parts[1] == 'random' else 1, fuzz=False) or []
     if not binary:
         print('BUILD-FAILED'); return 2
     res, out = replay_once(binary, prop, path)
+    for ob in others:
+        if 'type not in this shard' not in out:
+            break
+        res, out = replay_once(ob, prop, path)
     print(out)
     if res == 'fail':
         print('VIOLATION property=%s replay=%s' % (prop, os.path.abspath(path)))
@@ -491,6 +499,18 @@ def do_check(prop, P, tier, seed):
         if not j:
             continue
         res, out = replay_once(j.replay_binary or j.binary, prop, path, j.env)
+        if 'type not in this shard' in out:
+            # the type pool was extended since the case was saved and the type moved to another shard
+            prefix = hdr.get('target', '').rsplit(':', 1)[0] + ':'
+            for j2 in jobs:
+                if j2.target.startswith(prefix) and j2 is not j and not j2.fuzz:
+                    res, out = replay_once(j2.replay_binary or j2.binary, prop, path, j2.env)
+                    if 'type not in this shard' not in out:
+                        j = j2
+                        break
+        if 'type not in this shard' in out:
+            incomplete.append('saved replay %s: its type is in no shard of %s' % (fn, hdr.get('target')))
+            continue
         saved_run += 1
         if res == 'fail':
             case = [l for l in open(path, errors='replace') if not l.startswith('#')]
